@@ -209,8 +209,8 @@ func TestTableExamples(t *testing.T) {
 				mods[strings.TrimSuffix(filepath.Base(g), ".hms")] = string(gb)
 			}
 		}
-		for _, seed := range []int64{0, 1, 2, 3, 42, -7} {
-			for _, passes := range []int{1, 2} {
+		for _, seed := range []int64{0, 1, 2, 3, 42, -7, 9223372036854775807, -9223372036854775808} {
+			for _, passes := range []int{1, 2, 3, 4} {
 				k++
 				if !pk.Mine(k) {
 					continue
